@@ -109,6 +109,11 @@ func (mem *Mempool) TxsFrontWait() *clist.CElement {
 //     It gets called from another goroutine.
 // CONTRACT: Either cb will get called, or err returned.
 func (mem *Mempool) ReceiveTx(tx types.Tx) (err error) {
+	// the checks below and the insertion must not interleave with
+	// other submitters, Update, Reap or Flush
+	mem.mtx.Lock()
+	defer mem.mtx.Unlock()
+
 	if mem.cache.Exists(tx) {
 		return ErrTxInCache
 	}
